@@ -153,6 +153,7 @@ impl Cache {
             let mut proc = collection.find(&task.pid)?;
             proc.end_time = p.end_time();
             proc.state = p.state().into();
+            proc.err = p.err().map(|err| err.to_string());
 
             collection.update(&proc)?;
             self.store.upsert_task(task)?;
